@@ -128,6 +128,9 @@ type logSpec struct {
 	varErr error
 }
 
+// very long logs run with a reduced set of the other sources (the log is what is varied there)
+var reducedLogs = map[string]bool{}
+
 type quoteSpec struct {
 	name  string
 	bytes []byte
@@ -210,6 +213,24 @@ func main() {
 				logSpec{fmt.Sprintf("long(shift=%d)+variable", shift), write(fmt.Sprintf("el-long-var-%d", shift), mkLog(append(append([]*eventlog.SP800155Event3(nil), filler...), sp800(g, eventlog.RIMLocationVariable, rimVar))...)), varBlob, "", false, nil})
 		}
 	}
+	// Very long logs (more than 64 KiB: 520 foreign events before the deciding one), again padded so
+	// that over the family every field of some later event falls across the 65536-byte offset.
+	{
+		step := mc.Pick(r, 4, 1)
+		for shift := 0; shift < 192; shift += step {
+			filler := []*eventlog.SP800155Event3{sp800("Filler Corp", eventlog.RIMLocationRaw, bytes.Repeat([]byte{0xF1}, shift))}
+			for i := 0; i < 520; i++ {
+				filler = append(filler, sp800("Filler Corp", eventlog.RIMLocationRaw, []byte("filler-event-payload-of-some-length")))
+			}
+			b := mkLog(append(append([]*eventlog.SP800155Event3(nil), filler...), sp800(g, eventlog.RIMLocationRaw, rawBlob))...)
+			if len(b) <= 70<<10 {
+				mc.Fatal("very long log is only %d bytes", len(b))
+			}
+			name := fmt.Sprintf("very-long(shift=%d)+raw", shift)
+			reducedLogs[name] = true
+			logs = append(logs, logSpec{name: name, path: write(fmt.Sprintf("el-vlong-raw-%d", shift), b), local: rawBlob})
+		}
+	}
 	qs := append([]quoteSpec{{"empty", nil, nil, nil, "", true}, {"garbage", []byte("\x01\x02garbage that is no attestation\xff\xfe"), nil, nil, "", true}}, quotes(mQuote, localBlob, "")...)
 	pq := quotes(mProvider, provBlob, "p:")
 	type provSpec struct {
@@ -242,6 +263,9 @@ func main() {
 				for _, gt := range gets {
 					for _, force := range []bool{false, true} {
 						lg, q, pv, gt, force := lg, &qs[qi], pv, gt, force
+						if reducedLogs[lg.name] && (qi > 3 || pv.name == "error" || pv.name == "without-extras" || gt.name == "error") {
+							continue
+						}
 						id := fmt.Sprintf("extract log=%s quote=%s provider=%s getter=%s force=%v", lg.name, q.name, pv.name, gt.name, force)
 						r.Case(id, func() string {
 							gtr := &recGetter{body: netBlob, err: gt.err}
